@@ -24,6 +24,7 @@ CODECS = ('latin_1', 'cp500', 'cp037')
 
 
 def prepare(ctx):
+    ctx.online_wanted = ('C02', 'C03', 'C04', 'C05', 'C08', 'C09')
     from cardutil.config import config
     from cardutil.cli import mci_csv_to_ipm, mci_ipm_to_csv
     ctx.config = config
